@@ -482,8 +482,8 @@ int SimulateLc3::get_reg_index(const char *reg_string)
   while (*reg_string == ' ') { reg_string++; }
 
   if (reg_string[0] != 'r' && reg_string[0] != 'R') { return -1; }
+  if (reg_string[1] < '0' || reg_string[1] > '7') { return -1; }
   if (reg_string[2] != 0) { return -1; }
-  if (reg_string[1] < '0' || reg_string[2] > '7') { return -1; }
 
   return reg_string[1] - '0';
 }
